@@ -55,3 +55,31 @@ def parse_deal(text):
 
 def first_seat(text):
     return G.SEAT_OF_LETTER[text[0]]
+
+
+# ---- export format: a board result as a PBN game (PBN 2.1, 3.4 "mandatory tag set") -------------
+
+MANDATORY_TAGS = ('Event', 'Site', 'Date', 'Board', 'West', 'North', 'East', 'South', 'Dealer',
+                  'Vulnerable', 'Deal', 'Scoring', 'Declarer', 'Contract', 'Result')
+
+
+def tag_line(tag, value):
+    return '[' + tag + ' "' + value + '"]\n'
+
+
+def export_values(event, site, date_text, board_num, west, north, east, south, dealer, deal,
+                  scoring_name, contract, taken_tricks):
+    """The fifteen values in the order of MANDATORY_TAGS.  Vulnerability in PBN spelling; a
+    passed-out board has an empty declarer and result and the contract 'Pass'."""
+    import spec.jsonlog as J
+    passed = J.is_passed_out(contract)
+    return (event, site, date_text, str(board_num), west, north, east, south,
+            G.SEAT_LETTER[dealer], G.VUL_PBN[contract.vul], deal_text(deal, dealer), scoring_name,
+            '' if passed else G.SEAT_LETTER[contract.declarer],
+            'Pass' if passed else J.contract_text(contract),
+            '' if passed else str(taken_tricks))
+
+
+def export_game_lines(values):
+    """A game in export format: the fifteen tag pairs, then the empty line that ends the game."""
+    return [tag_line(t, v) for t, v in zip(MANDATORY_TAGS, values)] + ['\n']
